@@ -6,7 +6,7 @@
    vocabulary (abs, lockstep, reachable, cls_ok) Spec/CIRel.v.  `str_instance_eq_ok` / `str_instance_lower_idem` show that the
    extracted instance (Python str with the ASCII case mapping) meets both hypotheses. *)
 From Pybtex Require Import Base.Prelude Base.PyChar Base.PyStr Model.CIDict Model.CIDictStr
-  Spec.CIMap Spec.CIRel Proofs.CIDict Proofs.CIDictFindings Proofs.CISet.
+  Model.CIMulti Spec.CIMap Spec.CIRel Spec.CIMultiSpec Proofs.CIDict Proofs.CIDictFindings Proofs.CISet Proofs.CIMulti.
 Require Import Permutation.
 
 (* the hypotheses of the theorems below hold for the instance that is extracted and compared with pybtex *)
@@ -217,6 +217,51 @@ Theorem set_len_iter_contains_agree : forall (K : Type) (keqb : K -> K -> bool) 
 Proof. exact set_observe_agree_r. Qed.
 Print Assumptions set_len_iter_contains_agree.
 
+(* ---- SEVERAL LIVE CONTAINERS (Model/CIMulti.v): every operation names its target; lower(), construction from
+   an existing container or its items(), update(other) derive a container from another one ---- *)
+
+(* independence: an operation changes at most the container it names (an appending operation: only the new
+   slot); every other live container is the same value afterwards, a fortiori its abstraction.  Trivial in
+   the functional model -- the point is that the correspondence run now checks it against the code, where two
+   containers could share a mutable _dict. *)
+Theorem containers_independent : forall (K V : Type) (keqb : K -> K -> bool) (lower : K -> K)
+  (st : list (cid K V)) (m : mop K V) (j : nat), j <> mtarget K V (length st) m ->
+  nth_error (fst (mstep K V keqb lower st m)) j = nth_error st j /\
+  option_map (abs K V) (nth_error (fst (mstep K V keqb lower st m)) j) = option_map (abs K V) (nth_error st j).
+Proof. exact containers_independent_full. Qed.
+Print Assumptions containers_independent.
+
+(* run_refines lifted pointwise: every history over any number of live containers of the three classes (created
+   from pairs, as defaulting containers, by lower(), from another container or its items; operated on through
+   any of the 11 operations and update(other)) -- all results and, after every step, the observations of ALL
+   live containers are those of one independent reference map per container *)
+Theorem multi_run_refines : forall (K V : Type) (keqb : K -> K -> bool) (lower : K -> K),
+  (forall a b : K, reflect (a = b) (keqb a b)) ->
+  (forall k : K, lower (lower k) = lower k) ->
+  forall (probes : list K) (ops : list (mop K V)), forallb (mop_wf K V) ops = true ->
+  mrun K V keqb lower probes [] ops = mspec_run K V keqb lower probes [] ops.
+Proof. exact Proofs.CIMulti.multi_run_refines. Qed.
+Print Assumptions multi_run_refines.
+
+(* the same for sets *)
+Theorem sets_independent : forall (K : Type) (keqb : K -> K -> bool) (lower : K -> K)
+  (st : list (cis K)) (m : smop K) (st' : list (cis K)) (r : eres (sret K)) (j : nat),
+  smstep K keqb lower st m = Some (st', r) -> j <> smtarget K (length st) m -> nth_error st' j = nth_error st j.
+Proof. exact Proofs.CIMulti.sets_independent. Qed.
+Print Assumptions sets_independent.
+Theorem multiset_run_refines : forall (K : Type) (keqb : K -> K -> bool) (lower : K -> K) (ksort : list K -> list K),
+  (forall a b : K, reflect (a = b) (keqb a b)) ->
+  (forall k : K, lower (lower k) = lower k) ->
+  forall (probes : list K) (ops : list (smop K)),
+  match smspec_run K keqb lower [] ops with
+  | Some (xs, spf) =>
+    exists rs stf, smrun K keqb lower ksort probes [] ops = Some rs /\ map fst rs = xs /\
+                   smrun_state K keqb lower [] ops = Some stf /\ smrel K lower stf spf
+  | None => smrun K keqb lower ksort probes [] ops = None
+  end.
+Proof. exact multiset_run_refines_empty. Qed.
+Print Assumptions multiset_run_refines.
+
 (* ---- non-vacuity ---- *)
 Example ex_set :
   let s0 := cs_init str str_eqb lower [s2l "Aaa"; s2l "Bbb"] in
@@ -259,3 +304,13 @@ Proof. exact f4_regression. Qed.
 Example ex_f3_regression :
   abs str Z (ci_init str Z str_eqb lower ClsPlain [(s2l "a", 1%Z); (s2l "A", 2%Z); (s2l "a", 3%Z)]) = [(s2l "a", (s2l "a", 3%Z))].
 Proof. exact f3_regression. Qed.
+
+(* two live containers: the lowered copy and the original evolve independently *)
+Definition ex_mops : list (mop str Z) :=
+  [MNew ClsOrdered [(s2l "Ab", 1%Z); (s2l "c", 2%Z)]; MLower 0; MOp 1 (OSet (s2l "AB") 3%Z); MOp 0 (ODel (s2l "C"));
+   MCopy 0 ClsPlain; MNewDefault 0%Z; MUpdateFrom 3 1].
+Example ex_multi :
+  forallb (mop_wf str Z) ex_mops = true /\
+  map (fun o => o_items str Z o) (snd (last (mrun str Z str_eqb lower [] [] ex_mops) (EOk RNone, []))) =
+    [EOk [(s2l "Ab", 1%Z)]; EOk [(s2l "AB", 3%Z); (s2l "c", 2%Z)]; EOk [(s2l "Ab", 1%Z)]; EOk [(s2l "AB", 3%Z); (s2l "c", 2%Z)]].
+Proof. vm_compute. auto. Qed.
